@@ -183,6 +183,35 @@ def run(ctx):
                         ctx.fail('run info does not describe the latest successful run', full_case,
                                  {'task': got['fullname'], 'run_info': got['run_info'], 'expected': einfo})
         b.cleanup_module()
+    k7_witness(ctx)
+
+
+def k7_witness(ctx):
+    """finding K7: name mode, config names that differ only after their last dot (`main.v1` / `main.v2`), a DIRECTORY result: both
+    configs keep their results apart (`main.v1/`, `main.v2/`) but share one run-info file and one log (`main.run_info.yaml`,
+    `main.log`: `Path.stem` of a directory name cuts at the last dot), so the run info of the first names the config of the second"""
+    from tcv import gen, pipeline as pl
+    root = ctx.tmpdir() / 'k7'
+    spec = {'classes': {'K0': {'name': 'w', 'group': '', 'params': [{'name': 'x'}], 'inputs': [], 'kind': 'dir', 'run_args': ['x']}},
+            'files': {'main.v1.json': {'tasks': ['K0'], 'x': 1}, 'main.v2.json': {'tasks': ['K0'], 'x': 2}}, 'main': 'main.v1.json'}
+    b = pl.materialize(spec, root, modname=gen.fresh_modname())
+    b.module()
+    c1, e1 = pl.build(b, root / 'd', main='main.v1.json', parameter_mode=False)
+    c2, e2 = pl.build(b, root / 'd', main='main.v2.json', parameter_mode=False)
+    case = {'witness': 'K7', 'configs': ['main.v1', 'main.v2'], 'mode': 'name', 'kind': 'dir'}
+    ctx.case(case)
+    if e1 or e2:
+        ctx.notes['K7'] = f'witness does not build: {e1 or e2}'; b.cleanup_module(); return
+    _ = c1.tasks['w'].value
+    _ = c2.tasks['w'].value
+    t1 = pl.build(b, root / 'd', main='main.v1.json', parameter_mode=False)[0].tasks['w']
+    info = t1.run_info
+    if info and info.get('config', {}).get('name') != 'main.v1':
+        ctx.fail('K7 witness: the run info of a stored result names another config', case,
+                 {'data_path': str(t1.data_path.name), 'run_info_config': info.get('config'), 'parameters': info.get('parameters')}, known='K7')
+    else:
+        ctx.notes['K7'] = 'witness no longer fails: finding K7 appears repaired'
+    b.cleanup_module()
 
 
 def search(ctx, divergences):
